@@ -761,6 +761,32 @@ def storage_part(R, tier):
         cases.append(misc_case(alg, keys, Xs, what))
         R.count('clause=storage-' + what)
         R.case(('smisc', what, repr(Xs)), True)
+    # two array axes (a grid of elements; outside Model/Storage.v, judged directly): element (i, j) of the multivector has the
+    # coefficients values[key][i][j]; itermv() enumerates the elements in row-major order
+    import numpy as np
+    from kingdon import MultiVector
+    for _ in range(40 * n):
+        k, gn, gm = rng.randint(1, 4), rng.randint(1, 3), rng.randint(1, 4)
+        keys = rng.sample(range(8), k)
+        raw = [[[rng.randint(-9, 9) for _ in range(gm)] for _ in range(gn)] for _ in keys]
+        back = rng.choice(['nd3', 'list-of-2d'])
+        arr = np.array(raw, dtype=np.int64)
+        X = MultiVector.fromkeysvalues(alg, tuple(keys), arr if back == 'nd3' else list(arr))
+        R.count('clause=storage-grid'); R.count('storage=' + back); R.case(('sgrid', back, repr(raw)), gn > 1 and gm > 1)
+        rep = {'keys': keys, 'values': raw, 'storage': back}
+        try:
+            if tuple(X.shape) != (k, gn, gm):       # shape is that of values(): the key axis first
+                R.violation({'clause': 'storage-grid'}, rep, f'shape is {X.shape} for a {gn}x{gm} grid of elements ({back})')
+            got = [[int(v) for v in e.values()] for e in X.itermv()]
+            want = [[raw[a][i][j] for a in range(k)] for i in range(gn) for j in range(gm)]
+            if got != want:
+                R.violation({'clause': 'storage-grid'}, dict(rep, impl=got), f'itermv() of a {gn}x{gm} grid ({back}) yields the elements {got}, row-major order is {want}')
+            i, j = rng.randrange(gn), rng.randrange(gm)
+            e = X[i, j]
+            if list(e.keys()) != keys or [int(v) for v in e.values()] != [raw[a][i][j] for a in range(k)]:
+                R.violation({'clause': 'storage-grid'}, dict(rep, index=[i, j]), f'X[{i}, {j}] of a {gn}x{gm} grid ({back}) is {e}')
+        except Exception as e:  # noqa
+            R.violation({'clause': 'storage-grid'}, rep, f'grid of elements ({back}) raised {type(e).__name__}: {e}'[:300])
     # operands
     pool = algs.AlgPool()
     for _ in range(8 * n):
